@@ -6,11 +6,9 @@
    History: before /repo f4a117d the statement needed "the dry re-staging of the workspace
    succeeds" and was refuted without it (old = None after a swallowed FileNotFoundError, every key
    ADD, linked over without _remove); the refutation witness is now C05_former_witness_refuses.
-   C05_refusal (PromptError p -> ws' p = ws p) is not proved: it needs the key order to be
-   duplicate-free and a frame argument over the three change lists; it is checked by the oracle
-   (C05:refused-but-touched) and the correspondence only. *)
+   C05_refusal needs the key order to be duplicate-free (it is the iteration order of a Python set). *)
 From Coq Require Import NArith List Bool.
-From DvcData Require Import Base.Val Base.PyBase Model.ObjCheckout Proofs.ObjCheckoutProofs Proofs.ObjCheckoutProofs2.
+From DvcData Require Import Base.Val Base.PyBase Model.ObjCheckout Proofs.ObjCheckoutProofs Proofs.ObjCheckoutProofs2 Proofs.ObjCoBase Proofs.ObjCoRefusal.
 Import ListNotations.
 Open Scope N_scope.
 
@@ -23,6 +21,42 @@ Theorem C05_no_loss : forall (H : bytes -> oid) g c w tgt order k n,
   (exists f, g_prompt g = Some f /\ f k = true).
 Proof. intros H g c w tgt order k n Hk. exact (checkout_no_loss H g c w tgt order k n Hk). Qed.
 Print Assumptions C05_no_loss.
+
+(* histories: any number of checkouts, cache collections (HDrop) and user edits in one process on
+   one cache - each checkout accounts for what it destroys against the cache AT THE TIME OF THAT
+   CALL (no answer of an earlier call is remembered).  A memo of in_cache answers that survives a
+   call (seeded change m1) breaks the correspondence with this model on two-checkout histories. *)
+Theorem C05_no_loss_history : forall (H : bytes -> oid) pre s0 g tgt order k n,
+  let s := hrun H pre s0 in
+  kassoc k (snd s) = Some n ->
+  kassoc k (snd (hstep H s (HCheckout g tgt order))) = Some n \/
+  g_force g = true \/ (exists co, oassoc (H (f_bytes n)) (fst s) = Some co) \/
+  (exists f, g_prompt g = Some f /\ f k = true).
+Proof. intros H pre s0 g tgt order k n s Hk. simpl. exact (checkout_no_loss H g (fst s) (snd s) tgt order k n Hk). Qed.
+Print Assumptions C05_no_loss_history.
+
+(* non-vacuity: version 1 checked out, its object collected, unforced checkout of version 2 refuses
+   and keeps the only copy of version 1 *)
+Theorem C05_history_instance :
+  let H := fun b : bytes => 1 :: b in
+  let c := [([1; 65], mk_cobj [65] 1 1 1); ([1; 66], mk_cobj [66] 2 1 2)] in
+  let g1 := mk_cfg true false None [copy_name] [LCopy] false 9 in
+  let g2 := mk_cfg false false None [copy_name] [LCopy] false 9 in
+  let k := [[97]] in
+  let s := hrun H [HCheckout g1 [(k, [1; 65])] [k]; HDrop [1; 65]] (c, []) in
+  option_map f_bytes (kassoc k (snd s)) = Some [65] /\ oassoc [1; 65] (fst s) = None /\
+  r_out (checkout H g2 (fst s) (snd s) [(k, [1; 66])] [k]) = OPrompt k /\
+  option_map f_bytes (kassoc k (snd (hstep H s (HCheckout g2 [(k, [1; 66])] [k])))) = Some [65].
+Proof. vm_compute. repeat split; reflexivity. Qed.
+Print Assumptions C05_history_instance.
+
+(* a refusal (PromptError path) leaves that path exactly as it was before the call - whatever was
+   done to other paths before the refusal *)
+Theorem C05_refusal : forall (H : bytes -> oid) g c w tgt order p, NoDup order ->
+  r_out (checkout H g c w tgt order) = OPrompt p ->
+  kassoc p (r_ws (checkout H g c w tgt order)) = kassoc p w.
+Proof. exact checkout_refusal. Qed.
+Print Assumptions C05_refusal.
 
 (* without force and without a prompt, only files whose bytes are recoverable are touched:
    the cache (intact, collision-free) holds exactly those bytes *)
@@ -76,3 +110,13 @@ Theorem C05_links_table : forall f tab unused p r,
   In (p, r) (snd (remove_links f tab unused)) <-> In (p, r) tab /\ ~ In p unused.
 Proof. exact remove_links_table. Qed.
 Print Assumptions C05_links_table.
+
+(* the recorded and the current (inode, token) are compared exactly, and a directory's token is the
+   full (path, mtime) list at full mtime resolution.  ENVIRONMENT HYPOTHESIS the real tokenizer
+   (utils._tokenize_mtimes: md5 of the JSON of path -> st_mtime) must meet: equal tokens only for
+   equal path -> mtime maps, at the resolution of st_mtime.  A tokenizer that coarsens mtimes
+   (seeded change m2: int() truncation) violates it; the link histories of the harness rewrite files
+   in place 0.25 s / 1 us after the recorded mtime, inside the same second, to exercise it. *)
+Theorem C05_links_token_exact : forall a b, rec_eqb a b = true <-> a = b.
+Proof. exact rec_eqb_spec. Qed.
+Print Assumptions C05_links_token_exact.
